@@ -280,9 +280,9 @@ fn gen_container(src: &mut Src, p: &DocParams) -> Vec<u8> {
 pub fn run(ctx: &Ctx) {
     let p = DocParams { ws: 2, max_depth: 4, max_items: 8, allow_lone_surrogates: true, allow_inf: true, ..DocParams::default() };
     let pc = p.clone();
-    ctx.search(&sub("containers"), "generated", ctx.n(500_000, 5_000_000), 800, &move |src: &mut Src| gen_container(src, &pc));
+    ctx.search(&sub("containers"), "generated", ctx.n(2_000_000, 16_000_000), 800, &move |src: &mut Src| gen_container(src, &pc));
     let pc = p.clone();
-    ctx.search(&sub("mutated"), "mutated", ctx.n(1_000_000, 10_000_000), 600, &move |src: &mut Src| {
+    ctx.search(&sub("mutated"), "mutated", ctx.n(4_000_000, 32_000_000), 600, &move |src: &mut Src| {
         let d = gen_container(src, &pc);
         let mut m = gens::mutate(src, &d).0;
         if src.chance(50) {
@@ -290,8 +290,8 @@ pub fn run(ctx: &Ctx) {
         }
         m
     });
-    ctx.search(&sub("many-small"), "many-small", ctx.n(1_500, 30_000), 200, &|src: &mut Src| gens::gen_many_small(src));
-    ctx.search(&sub("brackets"), "bracket-stress", ctx.n(150_000, 2_000_000), 300, &|src: &mut Src| crate::lazyhelp::gen_bracket_stress(src));
+    ctx.search(&sub("many-small"), "many-small", ctx.n(6_000, 60_000), 200, &|src: &mut Src| gens::gen_many_small(src));
+    ctx.search(&sub("brackets"), "bracket-stress", ctx.n(600_000, 4_800_000), 300, &|src: &mut Src| crate::lazyhelp::gen_bracket_stress(src));
     // sizes 0..=40 with each element kind
     ctx.sweep(&sub("sizes"), true, &|shard, n, emit| {
         let elems: [&str; 8] = ["1", "\"a\\\"b\"", "null", "[1,[2]]", "{\"k\":{}}", "-1.5e3", "\"\"", "true"];
